@@ -176,10 +176,10 @@ func (p vpath) String() string {
 
 // effect summary of an atomic (not version-dependent) callee
 type effSummary struct {
-	stStores   map[string]bool // fields of *SlimTrie stored (transitively)
-	wireWrites map[string]bool // wire paths of an existing message written in place (stores, copy)
-	buildsSlim bool            // returns a freshly built *Slim
-	paramWrites map[int]bool // parameters whose pointee (a byte slice) is written in place
+	stStores    map[string]bool // fields of *SlimTrie stored (transitively)
+	wireWrites  map[string]bool // wire paths of an existing message written in place (stores, copy)
+	buildsSlim  bool            // returns a freshly built *Slim
+	paramWrites map[int]bool    // parameters whose pointee (a byte slice) is written in place
 }
 
 type versEngine struct {
